@@ -141,6 +141,11 @@ def regress_scenarios(full):
          D("c6", 1, "c_zero"), CL("c6", 1), D("c7", 1, "c_cat"), CL("c7", 1), D("c8", 1, "c_one"), CL("c8", 1),
          D("c1", 0, "c_bad_norun"), CL("c1", 0), RS("kill"), CL("c1", 0), CL("c3", 0), CL("c9", 0)])
     add([D("c1", 0, "c_slow"), BURST([CL("c1", 0), CL("c1", 0), CL("c1", 0)]), D("c1", 0, "c_two"), CL("c1", 0)])
+    # C06: the same script text defined / registered in two contexts (and under two names): what its `.cat` / `.head` see is
+    # the context of the definition that answers, not of whichever definition was prepared first (seeded change C06-d)
+    add([T(0), T(1, "t.y"), D("c7", 0, "c_cat"), D("c7", 1, "c_cat"), CL("c7", 1), CL("c7", 0), D("c8", 1, "c_cat"), CL("c8", 1),
+         T(1), CL("c8", 1), RS("kill"), CL("c7", 1), CL("c7", 0)])
+    add([T(0), T(1, "t.y"), R("h1", 0, "h_cat"), R("h1", 1, "h_cat"), T(1), T(0), R("h2", 1, "h_cat"), T(1, "t.y"), RS("kill"), T(1), T(0)])
     # C19 known: table keyed by name across contexts
     add([D("c1", 0, "c_two"), CL("c1", 1), D("c1", 1, "c_three"), CL("c1", 0), D("c7", 1, "c_cat"), T(0), CL("c7", 0)], cfg="known-cmd-name")
     # C18
